@@ -392,6 +392,21 @@ func (e *Engine) specTypeExpr(pkg *types.Package, x ast.Expr) types.Type {
 		}
 	case *ast.ParenExpr:
 		return e.specTypeExpr(pkg, n.X)
+	case *ast.ChanType:
+		if t := e.specTypeExpr(pkg, n.Value); t != nil {
+			dir := types.SendRecv
+			switch n.Dir {
+			case ast.SEND:
+				dir = types.SendOnly
+			case ast.RECV:
+				dir = types.RecvOnly
+			}
+			return types.NewChan(dir, t)
+		}
+	case *ast.StructType:
+		if n.Fields == nil || len(n.Fields.List) == 0 {
+			return types.NewStruct(nil, nil)
+		}
 	case *ast.InterfaceType:
 		if n.Methods == nil || len(n.Methods.List) == 0 {
 			return types.NewInterfaceType(nil, nil).Complete()
